@@ -58,15 +58,15 @@ func main() {
 		xcache[ch] = x
 	}
 	lib.Must(c.NextBlock())
+	if ch := openChannel(c, c.Ctx, 1); ch != ibcChannel {
+		panic("unexpected channel id " + ch)
+	}
 
 	if mode == "replay" {
 		replay(c, rep)
 		return
 	}
-	if mode == "ibcprobe" {
-		ibcProbe(c)
-		return
-	}
+
 
 	n := 45
 	if lib.Tier() == "thorough" {
@@ -175,6 +175,23 @@ func scripted() []script {
 			{K: "ConvertDenom", T: 1, A: 100, B: 101, Src: 1, Tgt: 0, X: 50},
 		}},
 		{"C04 C08", "zero amounts through every entry point", spi, zeroOps()},
+		{"C04", "IBC: FX cannot leave over IBC through BaseCoinToIBCCoin (C04-4); alias vouchers cannot be received", spi, []Op{
+			{K: "SendToFx", C: 1, T: 0, A: 100, X: 300, Tgt: 2},
+			{K: "ConvertCoin", T: 0, A: 100, B: 100, X: 1000},
+			{K: "PreCrossChainIbc", T: 0, A: 100, X: 100},
+			{K: "PreCrossChainIbc", T: 0, A: 100, X: 100, Flag: true},
+			{K: "IbcRecv", T: 0, A: 101, X: 60},
+			{K: "IbcRecv", T: 0, A: 101, X: 60},
+			{K: "IbcRecv", T: 1, A: 101, X: 500},
+			{K: "IbcMint", T: 1, A: 100, X: 500},
+			{K: "IbcToBase", T: 1, A: 100, X: 400},
+			{K: "SendToFx", C: 1, T: 1, A: 101, X: 150, Tgt: 2},
+			{K: "SendToFx", C: 1, T: 1, A: 101, X: 300, Tgt: 2},
+			{K: "ConvertCoin", T: 1, A: 100, B: 100, X: 200},
+			{K: "PreCrossChainIbc", T: 1, A: 100, X: 120},
+			{K: "PreCrossChainIbc", T: 1, A: 100, X: 200},
+			{K: "BaseToIbc", T: 0, A: 100, X: 10},
+		}},
 		{"C04", "withdrawable-refuted (older-rule refund parks the bridge denom)", sp, []Op{
 			{K: "SendToFx", C: 1, T: 1, A: 100, X: 1000},
 			{K: "BridgeCallMsg", C: 1, A: 100, B: 100, Toks: [][2]int64{{1, 400}}},
@@ -456,6 +473,8 @@ func (w *World) perform(o *Op, record func(Op, error), mon *Monitor) perfResult 
 		tgt := ""
 		if o.Tgt == 1 {
 			tgt = hexTarget("erc20")
+		} else if o.Tgt == 2 {
+			tgt = hexTarget(ibcTarget)
 		}
 		h := nextH()
 		n, ok := w.observe(c, h, func(n, h uint64) crosschaintypes.ExternalClaim {
